@@ -241,6 +241,7 @@ class CallGraph:
     def call_sites(self, name):
         """[(body, block)] of calls whose written or resolved callee ends with `name` (generics stripped)."""
         out = []
+        name = strip_generics(name)
         for c, ss in self.sites.items():
             if c == name or c.endswith('::' + name):
                 out.extend(ss)
